@@ -12,6 +12,7 @@ RULE = ("random topologies (2-7 nodes, skipped back-edges, deterministic / norma
         "reproduce infos, phases and per-connection settings; short simulated episodes after set_delay must show the NEW delays; one "
         "evaluation = one history step (or one round trip / episode); non-trivial = step on a topology with >=1 path of length >=2; distinct by "
         "topology digest x step index")
+RULE += " Built later: shadow input names in the round trip; numpy bool skip flags; trainable connections whose expected delay differs from the distribution's delay."
 MIN_NONTRIVIAL = {"quick": 300, "thorough": 8000}
 DECIDING = ["phase_comparisons", "roundtrips_checked"]
 ASSUMPTIONS = ["1e-7 tolerance: default expected delays are float32 quantiles, so summation order moves a phase by ~2e-9"]
